@@ -240,3 +240,63 @@ def make_backend(pyhf):
         def sqrt(self, a): return np.sqrt(self._lift(a))
         def abs(self, a): return np.abs(self._lift(a))
     return symbolic_backend()
+
+
+# ----------------------------------------------------------------------------------------------- numeric self-check of a translation
+
+def evaluate(x, env, funcs=None):
+    """the numeric value of a symbolic expression / decision tree under `env` (variable name → float); `funcs`: uninterpreted function
+    name → Python callable.  Used by the generators to check that the translation, evaluated at random points, reproduces what the code
+    under translation returns on the same numbers."""
+    funcs = funcs or {}
+    if isinstance(x, tuple) and x and x[0] in ('leaf', 'ite'):
+        if x[0] == 'leaf': return evaluate(x[1], env, funcs)
+        return evaluate(x[2] if holds(x[1], env, funcs) else x[3], env, funcs)
+    t = lit(x).t
+    k = t[0]
+    if k == 'var': return env[t[1]]
+    if k == 'const': return t[1]
+    if k == 'add': return evaluate(t[1], env, funcs) + evaluate(t[2], env, funcs)
+    if k == 'sub': return evaluate(t[1], env, funcs) - evaluate(t[2], env, funcs)
+    if k == 'mul': return evaluate(t[1], env, funcs) * evaluate(t[2], env, funcs)
+    if k == 'div': return evaluate(t[1], env, funcs) / evaluate(t[2], env, funcs)
+    if k == 'neg': return -evaluate(t[1], env, funcs)
+    if k == 'pow': return math.pow(evaluate(t[1], env, funcs), evaluate(t[2], env, funcs))
+    if k == 'abs': return abs(evaluate(t[1], env, funcs))
+    if k == 'log': return math.log(evaluate(t[1], env, funcs))
+    if k == 'exp': return math.exp(evaluate(t[1], env, funcs))
+    if k == 'sqrt': return math.sqrt(evaluate(t[1], env, funcs))
+    if k == 'list': return [evaluate(a, env, funcs) for a in t[1]]
+    if k == 'app': return funcs[t[1]](*[evaluate(a, env, funcs) for a in t[2]])
+    raise ValueError(k)
+
+
+def holds(c, env, funcs=None):
+    k, a, b = c.t
+    x, y = evaluate(a, env, funcs), evaluate(b, env, funcs)
+    return {'lt': x < y, 'le': x <= y, 'eq': x == y, 'ne': x != y}[k]
+
+
+SELFCHECKS = {}      # what → (points, largest relative deviation): filled by `selfcheck`, copied into the evidence by harness.main
+
+
+def selfcheck(what, tree, names, sampler, reference, funcs=None, n=60, rtol=1e-9, seed=12345):
+    """evaluate `tree` (a decision tree whose leaves are expressions or lists of expressions) at `n` random points drawn by `sampler(rng)`
+    (→ dict name → float) and compare with `reference(env)`; raises if the translation does not reproduce the code"""
+    import random
+    rng = random.Random(seed)
+    worst = 0.0
+    for _ in range(n):
+        env = sampler(rng)
+        t = tree
+        while t[0] == 'ite': t = t[2] if holds(t[1], env, funcs) else t[3]
+        got = [evaluate(v, env, funcs) for v in t[1]] if isinstance(t[1], (list, tuple)) else [evaluate(t[1], env, funcs)]
+        want = [float(v) for v in np.ravel(reference(env))]
+        if len(got) != len(want): raise RuntimeError(f'translator self-check {what}: {len(got)} values translated, the code returns {len(want)}')
+        for g, w in zip(got, want):
+            d = abs(g - w) / max(abs(w), 1e-300) if w != 0 else abs(g)
+            worst = max(worst, d)
+            if not (d <= rtol or abs(g - w) <= 1e-12):
+                raise RuntimeError(f'translator self-check {what}: translation gives {g!r}, the code {w!r} at {env}')
+    SELFCHECKS[what] = {'points': n, 'max_rel_deviation': worst}
+    return worst
